@@ -32,6 +32,7 @@ func runConcDurability(seed int64, rollover int64, pubs int, ms int, st *Stats) 
 
 // autoSync mode: every Publish return is an acknowledgement too (sampled), and so is Close.
 func runConcDurabilityMode(seed int64, rollover int64, pubs int, ms int, st *Stats, autoSync bool) string {
+	bursty := seed%2 == 1 && !autoSync
 	root := MkScratch("vf-c06c-")
 	defer os.RemoveAll(root)
 	dir := filepath.Join(root, "log")
@@ -83,18 +84,34 @@ func runConcDurabilityMode(seed int64, rollover int64, pubs int, ms int, st *Sta
 		}
 		imgMu.Unlock()
 	}
+	begun := map[string]int{}
 	verifhook.SetFS(func(op, site, p1, p2 string) {
 		if filepath.Dir(p1) != dir {
 			return
 		}
-		if op == "fsync" {
-			// appends and fsyncs of the head's files both happen under the log's writer mutex, so the size
-			// right after the fsync is the size that was fsynced
+		// what an fsync makes durable is at least what the file held when the call began; whether anything appended
+		// while it ran made it to the disk is not known. (In the code as it is, appends and fsyncs of the head's files
+		// both happen under the writer mutex and the two sizes are the same; a Sync that flushes outside the lock is
+		// exactly the kind of change this must not be blind to.)
+		if op == "fsync-begin" {
 			if fi, err := os.Stat(p1); err == nil {
 				mu.Lock()
-				synced[filepath.Base(p1)] = int(fi.Size())
+				begun[fmt.Sprintf("%d|%s", goid(), p1)] = int(fi.Size())
 				mu.Unlock()
 			}
+		}
+		if op == "fsync" {
+			mu.Lock()
+			k := fmt.Sprintf("%d|%s", goid(), p1)
+			if sz, ok := begun[k]; ok {
+				if sz > synced[filepath.Base(p1)] {
+					synced[filepath.Base(p1)] = sz
+				}
+				delete(begun, k)
+			} else if fi, err := os.Stat(p1); err == nil {
+				synced[filepath.Base(p1)] = int(fi.Size()) // an fsync without a begin tap (other sites): as before
+			}
+			mu.Unlock()
 		}
 	})
 	defer verifhook.SetFS(nil)
@@ -133,6 +150,9 @@ func runConcDurabilityMode(seed int64, rollover int64, pubs int, ms int, st *Sta
 				if autoSync && i%7 == p {
 					takeImage(w) // with AutoSync the return of Publish acknowledges w
 				}
+				if bursty && i%5 == 4 {
+					time.Sleep(time.Duration(200+100*(i%4)) * time.Microsecond) // bursts: Syncs that find nothing new happen too
+				}
 			}
 		}(p)
 	}
@@ -151,6 +171,12 @@ func runConcDurabilityMode(seed int64, rollover int64, pubs int, ms int, st *Sta
 				return
 			}
 			takeImage(w)
+			if bursty {
+				// ... and a second one right behind the first
+				if w2, err := l.Sync(); err == nil {
+					takeImage(w2)
+				}
+			}
 			time.Sleep(200 * time.Microsecond)
 		}
 	}()
